@@ -48,7 +48,7 @@ func (c06) Runs(tier string) int {
 	if tier == "thorough" {
 		return 150000
 	}
-	return 4000
+	return 8000
 }
 func (c06) RequiredProbes(string) []string {
 	return []string{"corruption_applied", "control_succeeded"}
